@@ -356,7 +356,7 @@ fn put_outcome(m: &mut serde_json::Map<String, Value>, prefix: &str, o: &Out) {
 }
 
 fn castx_events(t: &mut Shards, rng: &mut Rng, args: &Args, a: &DataType, b: &DataType) {
-    let vals = source_values_x(rng, a, args.scale(12, 80), args.thorough());
+    let vals = source_values_x(rng, a, args.scale(12, 160), args.thorough());
     let chunk = if vals.len() > 1000 { 256 } else { 64 };
     for (ci, part) in vals.chunks(chunk).enumerate() {
         for null_pct in [0usize, 20] {
@@ -831,7 +831,7 @@ fn main() {
             if want("castx") && exact_pair(a, b) {
                 castx_events(&mut t, &mut rng, &args, a, b);
             } else if want("castg") && flat(a) && flat(b) && !exact_pair(a, b) {
-                for _ in 0..args.scale(1, 4) {
+                for _ in 0..args.scale(1, 8) {
                     castg_event(&mut t, &mut rng, a, b, 12);
                 }
             }
@@ -843,14 +843,14 @@ fn main() {
     if want("text") {
         for dt in text_types() {
             for st in [DataType::Utf8, DataType::LargeUtf8, DataType::Utf8View] {
-                for _ in 0..args.scale(2, 12) {
+                for _ in 0..args.scale(2, 30) {
                     text_event(&mut t, &mut rng, &dt, &st);
                 }
             }
         }
     }
     if want("dtype") {
-        for dt in type_zoo(&mut rng, args.scale(300, 3000)) {
+        for dt in type_zoo(&mut rng, args.scale(300, 8000)) {
             dtype_event(&mut t, &dt);
         }
     }
